@@ -1522,7 +1522,11 @@ func genC05History(c *ctx) {
 			c.violate("probe-after:"+j.h.name, "after a session that ended with '"+j.h.name+"' the wrapper is not transparent again",
 				fmt.Sprintf("options=%04b seed=%d: %s", j.oi, j.seed, j.after))
 		}
-		if j.scen != "" {
+		if strings.HasPrefix(j.scen, "REDISPLAY: ") {
+			// DIRECT ORACLE: an old trigger displayed again is output like any other
+			c.violate("redisplayed-trigger:"+j.h.name, "a trigger of a finished transfer that is displayed again is not passed through untouched (it starts a new transfer)",
+				fmt.Sprintf("options=%04b seed=%d SetAffectedByWindows(true): %s", j.oi, j.seed, strings.TrimPrefix(j.scen, "REDISPLAY: ")))
+		} else if j.scen != "" {
 			c.violate("history-scenario:"+j.h.name, "the scripted session '"+j.h.name+"' did not take its expected course", fmt.Sprintf("options=%04b seed=%d: %s", j.oi, j.seed, j.scen))
 		}
 	}
